@@ -38,6 +38,8 @@ def _failing(prop: str, prog: Program, tier: str) -> set[tuple[str, str, str]] |
         mod.check(ctx)
     except AnalysisError as e:
         return f"ANALYSIS-ERROR {e}"
+    except Exception as e:  # noqa: BLE001  (check.py turns these into exit 2 as well)
+        return f"ANALYSIS-ERROR internal {type(e).__name__}: {e}"
     return {o.ident() for o in ctx.obs if not o.ok}
 
 
